@@ -48,7 +48,12 @@ for v in variants:
             continue
         ran += 1
         t0 = time.time()
-        p = subprocess.run([os.path.join(here, '..', 'check.sh'), v['prop'], a.tier], capture_output=True, text=True, env=env)
+        if v.get('all_props'):
+            # a behaviour-preserving refactoring must leave EVERY check silent
+            subprocess.run([os.path.join(here, '..', 'check.sh'), v['prop'], a.tier], capture_output=True, text=True, env=env)  # (re)builds the tool if needed
+            p = subprocess.run([os.path.join(here, '..', 'bin', 'irislint'), '-repo', a.repo, '-verif', os.path.join(here, '..'), '-prop', 'all', '-tier', a.tier], capture_output=True, text=True, env=dict(env, GOFLAGS='-mod=mod', GOPROXY='off', GOSUMDB='off', GOTOOLCHAIN='local', GOWORK='off'))
+        else:
+            p = subprocess.run([os.path.join(here, '..', 'check.sh'), v['prop'], a.tier], capture_output=True, text=True, env=env)
         out = p.stdout + p.stderr
         if v.get('kind', 'break') == 'break':
             good = p.returncode == 1 and (v.get('expect', '') in out)
